@@ -12,9 +12,24 @@ Tie (each scenario = a real repository with a few snapshots by users of related 
  (c) one permanent failure injected at each backend call index (`MemBackend.fault`): observed trace accepted, state = model prefix state;
  (d) `localfs.upload`: the real `Local.upload` / `upload_stream` killed at each phase (and failed attempts that are retried) on
      small directories incl. an existing destination and stale temporaries: raw directory + list/exists/download vs `LocalFS.lean`.
+ (e) TWO WORKERS OF ONE SNAPSHOT UPLOADING THE SAME CHUNK: snapshots of data in which a new chunk repeats (zero-filled regions, identical
+     files, runs of one block), ≥ 2 workers, the real local backend, NO serialisation of the uploads: the first two worker threads that
+     upload the same object are held at their first file-system operation and then moved ONE operation at a time (`impl/c03_duel.py`:
+     an audit hook sees open / rename / remove / mkdir, a profile function sees write / close of the file objects; nothing of replicat
+     is patched); after `worker 0: i operations, worker 1: j, worker 0: k` the process is killed (`os._exit`), or worker 1's operations
+     fail for good, or everybody runs on; schedules that separate two consecutive operations of one worker on a path by an operation
+     of the other worker on the same path come first.  The directory left behind is examined like every other crash state.
+ (f) `localduel.*`: two real `Local.upload` / `upload_stream` calls for ONE name (same payload / two different payloads, one or two
+     backend objects, small = buffered until close / large = written straight through, existing destination, stale temporaries)
+     under EVERY schedule `i, j, k` with a kill after it, and with every worker run to its end, one operation failing once, all of a
+     worker's operations failing for good; raw directory + list / exists / download vs the two-worker machine of `LocalUpload.lean`
+     (`duelRun`, the object of `concurrent_uploads_atomic`) on the observed operations, and vs its plain step semantics when an attempt
+     was retried.
 Direct oracles (the property itself): every visible snapshot restores completely and exactly; listings show no `*.tmp`; a failed or
 killed snapshot is invisible; list / restore / a new snapshot / clean succeed; after clean the family's chunk objects are exactly the
-referenced ones.
+referenced ones.  Two uploads of one object in flight: whatever is killed or fails, list / exists / download show the old object or
+one of the complete new ones, agree with each other, show no temporary and no change of a bystander; an upload that returned has
+stored a complete object; both finish when nothing fails, leaving no temporary; a later upload of the name takes effect.
 """
 import json
 import multiprocessing as mp
@@ -168,6 +183,17 @@ class Scenario:
             self.fileset = gen_fileset(r, self.blocks, prev) or {'a': r.randbytes(70)}
             if not any(self.fileset.values()):
                 self.fileset['a'] = r.randbytes(70)
+            if r.random() < 0.5:
+                # data in which a NEW chunk repeats (identical files, a run of one block, zero-filled regions): with more than one
+                # worker several of them see exists() == False for it and upload the same object at the same time
+                rep = r.choice(['zeros', 'zeros', 'twin-files', 'block-run'])
+                if rep == 'zeros':
+                    self.fileset['rep/sparse'] = bytes(64) * r.choice([4, 6, 9]) + r.randbytes(r.choice([0, 5]))
+                elif rep == 'twin-files':
+                    twin = r.randbytes(r.choice([90, 200, 333]))
+                    self.fileset['rep/one'], self.fileset['rep/two'] = twin, twin
+                else:
+                    self.fileset['rep/run'] = r.randbytes(r.choice([40, 100])) * r.choice([3, 5])
             res = w.snapshot(self.ui, self.fileset)
             self.op, self.new_sid = res['op'], res['sid']
             ref_trace = res['trace']
@@ -183,6 +209,9 @@ class Scenario:
         self.ref_now = FakeDatetime._now
         self.ref_clock = w.clock
         self.ref_muts = [(t[0], t[1]) for t in ref_trace if t[0] in ('put', 'del')]
+        asked = [t[1] for t in ref_trace if t[0] == 'exists']
+        # objects this command creates and meets at least twice in its stream (one `exists` per occurrence)
+        self.duel_targets = sorted({n for n in asked if asked.count(n) >= 2 and n not in self.objects0}) if self.kind == 'snapshot' else []
         self.ref_calls = len([t for t in ref_trace if t[0] in ('put', 'del', 'exists', 'get')])
         self.store_ref = w.abstract_store(self.others)
         rp = {'kind': 'scenario', 'idx': self.idx, 'tier': self.tier, 'part': 'reference'}
@@ -286,20 +315,29 @@ class Scenario:
             self.run_command(repo)
         return fn
 
-    def examine(self, root, log, k, phase, status):
+    def examine(self, root, log, k, phase, status, duel=None):
+        """`duel` (part e): dict(label, rp, logged [(kind, name)], full) — the mutations are those the child logged when they returned
+        plus every new object the directory shows (a call that renamed but had not returned yet)"""
         w, r = self.w, self.r
-        done, armed = C.read_log(log)
-        prefix = list(done) + ([armed] if (phase == 'renamed' and armed is not None) else [])
-        label = 'before-mutation-%d' % k if phase is None else '%s@%d' % (phase, k)
-        rp = {'kind': 'scenario', 'idx': self.idx, 'tier': self.tier, 'part': 'crash', 'k': k, 'phase': phase}
+        if duel is None:
+            done, armed = C.read_log(log)
+            prefix = list(done) + ([armed] if (phase == 'renamed' and armed is not None) else [])
+            label = 'before-mutation-%d' % k if phase is None else '%s@%d' % (phase, k)
+            rp = {'kind': 'scenario', 'idx': self.idx, 'tier': self.tier, 'part': 'crash', 'k': k, 'phase': phase}
+        else:
+            armed, prefix, label, rp = None, list(duel['logged']), duel['label'], duel['rp']
+        how = f'{self.kind} killed at {label}' if duel is None else label
         be = C.make_dir_backend(root)
         w.backend = be
         w.clock = self.ref_clock + 10
         saved = None
         try:
             listing = be.real_list('')
+            if duel is not None:
+                have = {n for _kd, n in prefix}
+                prefix += [('put', n) for n in sorted(listing) if n not in self.objects0 and n not in have]
             if any(n.endswith('.tmp') for n in listing):
-                self.viol('crash:temporary-listed', f'{self.kind} killed at {label}: the listing of the directory left behind shows a temporary: '
+                self.viol('crash:temporary-listed', f'{how}: the listing of the directory left behind shows a temporary: '
                           f'{[n for n in listing if n.endswith(".tmp")][:2]}', rp)
             raw = C.raw_files(root)
             temps = sorted(p for p in raw if p.endswith('.tmp'))
@@ -307,47 +345,52 @@ class Scenario:
             st = w.abstract_store(self.others)
             bad_objs = [e[0] for e in st if e[1] == ['blob', 0]]
             if bad_objs:
-                self.viol('crash:partial-object-visible', f'{self.kind} killed at {label}: objects that fail verification are visible under final names: {bad_objs[:3]}', rp)
+                self.viol('crash:partial-object-visible', f'{how}: objects that fail verification are visible under final names: {bad_objs[:3]}', rp)
             muts = self.dedup([self.mut_json(kd, n, self.new_sid) for kd, n in prefix])
             self.res['model'].append(({'op': 'trace.accepts', 'enc': self.enc, 'store': self.store0, 'cmd': self.op, 'trace': muts},
                                       {'store': canon_store(st), 'full': False}, 'trace', rp))
             base = {'enc': self.enc, 'store': st, 'user': w.model_user(self.ui)}
+            if duel is not None and not duel['full'] and not bad_objs:
+                self.res['cases'].append((dict(self.summary, part='duel', point=label, prefix=len(prefix), temps=len(temps)), True))
+                return
             # --- the property itself: every visible snapshot restores completely
             visible = [s for s, d in w.snap_by_sid.items() if d['location'] in listing]
             new_visible = [loc for loc in listing if loc.startswith('snapshots/') and loc not in self.snaps0]
             if self.kind == 'snapshot' and new_visible and not (status == 0 or (phase == 'renamed' and armed and armed[1] in new_visible)):
-                self.viol('crash:snapshot-visible-before-complete', f'snapshot killed at {label} but a new snapshot object is visible: {new_visible[:1]}', rp)
+                self.viol('crash:snapshot-visible-before-complete', f'{how} but a new snapshot object is visible: {new_visible[:1]}', rp)
             for s in visible:
                 d = w.snap_by_sid[s]
                 owner = next(i for i, uu in enumerate(w.users) if uu.keyid == d['owner'] and uu.fam == d['fam'])
                 err, tree = w.restore(owner, snapshot_regex='^' + d['name'] + '$')
                 if err is not None or tree != d['truth']:
-                    self.viol('crash:visible-snapshot-incomplete', f'{self.kind} killed at {label}: visible snapshot #{s} does not restore completely ({err or "content differs"})', rp)
+                    self.viol('crash:visible-snapshot-incomplete', f'{how}: visible snapshot #{s} does not restore completely ({err or "content differs"})', rp)
             # --- usable: list, restore-all, new snapshot, clean — compared with the model on the crashed state
             err, rows = K.run_list(w.repo(self.ui), None)
             if err is not None:
-                self.viol('crash:list-fails', f'{self.kind} killed at {label}: list-snapshots fails afterwards ({err})', rp)
+                self.viol('crash:list-fails', f'{how}: list-snapshots fails afterwards ({err})', rp)
             self.res['model'].append((dict(base, op='repo.list'), {'error': err, 'rows': None if rows is None else self.rows_model(rows)}, 'list', rp))
             err, tree, _files = K.run_restore(w.repo(self.ui), self.sc, None, None)
             if err is not None:
-                self.viol('crash:restore-fails', f'{self.kind} killed at {label}: restore fails afterwards ({err})', rp)
+                self.viol('crash:restore-fails', f'{how}: restore fails afterwards ({err})', rp)
             files = None if tree is None else sorted([w.pid(p), w.ver(b)] for p, b in tree.items())
             self.res['model'].append((dict(base, op='repo.restore'), {'error': err, 'files': files}, 'restore', rp))
             try:
                 fs2 = {'z': r.randbytes(90), 'a': self.blocks[0]}
+                if self.kind == 'snapshot':
+                    fs2 = dict(self.fileset, z=fs2['z'])        # the interrupted snapshot is taken again (plus one new file)
                 snap2 = w.snapshot(self.ui, fs2, repo=w.repo(self.ui))
                 st2 = w.abstract_store(self.others)
                 self.res['model'].append(({'op': 'repo.step', 'enc': self.enc, 'store': st, 'cmd': snap2['op']},
                                           {'store': canon_store(st2), 'error': None}, 'step', rp))
                 e2, t2 = w.restore(self.ui, snapshot_regex='^' + snap2['name'] + '$')
                 if e2 is not None or t2 != w.snap_by_sid[snap2['sid']]['truth']:
-                    self.viol('crash:new-snapshot-broken', f'{self.kind} killed at {label}: a snapshot taken afterwards does not restore ({e2})', rp)
+                    self.viol('crash:new-snapshot-broken', f'{how}: a snapshot taken afterwards does not restore ({e2})', rp)
             except Exception as e:  # noqa: BLE001
-                self.viol('crash:snapshot-fails', f'{self.kind} killed at {label}: a new snapshot fails afterwards ({err_kind(e)})', rp)
+                self.viol('crash:snapshot-fails', f'{how}: a new snapshot fails afterwards ({err_kind(e)})', rp)
                 st2 = w.abstract_store(self.others)
             cres = w.clean(self.ui)
             if cres['error'] is not None:
-                self.viol('crash:clean-fails', f'{self.kind} killed at {label}: clean fails afterwards ({cres["error"]})', rp)
+                self.viol('crash:clean-fails', f'{how}: clean fails afterwards ({cres["error"]})', rp)
             st3 = w.abstract_store(self.others)
             self.res['model'].append(({'op': 'repo.step', 'enc': self.enc, 'store': st2, 'cmd': cres['op']},
                                       {'store': canon_store(st3), 'error': cres['error']}, 'step', rp))
@@ -359,12 +402,15 @@ class Scenario:
                     refs.update(d['body']['chunks'])
             objs = {w.chunk_names[loc][1] for loc in listing3 if loc in w.chunk_names and w.chunk_names[loc][0] == fam}
             if objs - refs:
-                self.viol('crash:clean-leaves-unreferenced', f'{self.kind} killed at {label}, then clean: {len(objs - refs)} unreferenced chunk(s) of the family remain', rp)
+                self.viol('crash:clean-leaves-unreferenced', f'{how}, then clean: {len(objs - refs)} unreferenced chunk(s) of the family remain', rp)
             if refs - objs:
-                self.viol('crash:clean-removed-referenced', f'{self.kind} killed at {label}, then clean: {len(refs - objs)} referenced chunk(s) are missing', rp)
-            inside = phase is not None or (0 < len(prefix) and status != 0)
-            self.res['cases'].append((dict(self.summary, part='crash', point=label, prefix=len(prefix), temps=len(temps)), bool(inside)))
-            self.res['dist'] += ['b:crash:' + self.kind, 'b:point:' + ('between' if phase is None else phase), 'b:temps-left:%d' % min(len(temps), 2)]
+                self.viol('crash:clean-removed-referenced', f'{how}, then clean: {len(refs - objs)} referenced chunk(s) are missing', rp)
+            inside = phase is not None or (0 < len(prefix) and status != 0) or duel is not None
+            self.res['cases'].append((dict(self.summary, part='crash' if duel is None else 'duel', point=label, prefix=len(prefix), temps=len(temps)), bool(inside)))
+            if duel is None:
+                self.res['dist'] += ['b:crash:' + self.kind, 'b:point:' + ('between' if phase is None else phase), 'b:temps-left:%d' % min(len(temps), 2)]
+            else:
+                self.res['dist'].append('e:examined-in-full')
         finally:
             self.reset_world_snapshot_identity(saved)
             w.backend = self.mem
@@ -416,6 +462,103 @@ class Scenario:
                     continue
                 self.examine(root, log, k, phase, status)
                 shutil.rmtree(root, ignore_errors=True)
+
+    # ------------------------------------------------------------ (e) two workers of the snapshot upload the SAME chunk
+    def child_duel(self, root, log, segments, ending):
+        def fn():
+            from ..impl import c03_duel as D
+            be = D.make_duel_backend(root, log, set(self.duel_targets), segments, ending)
+            FakeDatetime._now = self.ref_now
+            repo = K.repo_on(self.w, self.ui, be)
+            self.run_command(repo)
+        return fn
+
+    def part_e(self, n_sched, n_full):
+        """the real snapshot on the real local backend with ≥ 2 workers and data in which a new chunk repeats: the first two
+        worker threads that upload the same object are held at their first file-system operation and then moved one operation at a
+        time (worker 0: i operations, worker 1: j, worker 0: k ∈ {0, all}); then the process is killed, or worker 1's operations
+        fail for good, or everybody runs on.  The directory left behind is examined like every other crash state."""
+        from ..impl import c03_duel as D
+        w = self.w
+        if not self.duel_targets:
+            self.res['dist'].append('e:no-repeated-new-chunk' if self.kind == 'snapshot' else 'e:not-a-snapshot')
+            return
+        d0 = self.sc.dir('E0')
+        C.materialize(self.objects0, d0)
+        keep, w.concurrent = w.concurrent, max(2, w.concurrent)
+
+        def go(segments, ending):
+            root = self.sc.dir()
+            shutil.rmtree(root)
+            shutil.copytree(d0, root)
+            log = str(root) + '.log'
+            K.settle()
+            status = C.run_child(self.child_duel(root, log, segments, ending), timeout=240)
+            return root, D.read_duel_log(log), status
+        try:
+            root, lg, status = go([(0, 'all'), (1, 'all')], ['release'])
+            shutil.rmtree(root, ignore_errors=True)
+            notes = [e[1].get('note') for e in lg['events'] if e[0] == 'm' and 'note' in e[1]]
+            if status != 0 or 'duel' not in notes:
+                self.res['dist'].append('e:no-duel-arose')
+                if status != 0:
+                    self.res['notes'].append((f'snapshot with two held uploaders of one chunk ended with status {status}', {'kind': 'scenario', 'idx': self.idx, 'tier': self.tier, 'part': 'duel'}))
+                return
+            n = [len([1 for ww, _pt, _f in lg['grants'] if ww == x]) for x in (0, 1)]
+            fam = []
+            for i in range(n[0] + 1):
+                for j in range(n[1] + 1):
+                    for k in ([0, 'all'] if j and i < n[0] else [0]):
+                        fam.append(([(0, i), (1, j), (0, k)], ['kill']))
+                    if j < n[1]:
+                        fam.append(([(0, i), (1, j), (0, 'all')], ['fault', 1, None, False]))
+                        fam.append(([(0, i), (1, j), (0, 'all')], ['fault', 1, ['write', 'close'], False]))
+                    fam.append(([(0, i), (1, j)], ['release']))
+            rng_for(0, 'C03-duel-family').shuffle(fam)
+            # conflict-directed selection: interleavings in which two CONSECUTIVE operations of worker 0 on one path are separated by
+            # an operation of worker 1 on the same path come first (with private temporaries there are none besides mkdir / rename)
+            ops = [[pt for ww, pt, _f in lg['grants'] if ww == x] for x in (0, 1)]
+            paths = lambda pt: {pt.get('p'), pt.get('to')} - {None}  # noqa: E731
+            prio = []
+            for i in range(1, n[0]):
+                shared = paths(ops[0][i - 1]) & paths(ops[0][i])
+                for j in range(1, n[1] + 1):
+                    if shared & paths(ops[1][j - 1]):
+                        prio += [([(0, i), (1, j), (0, 'all')], ['kill']), ([(0, i), (1, j), (0, 'all')], ['fault', 1, None, False]), ([(0, i), (1, j), (0, 0)], ['kill'])]
+            self.res['dist'].append('e:conflict-directed-schedules:%s' % ('none' if not prio else '1-9' if len(prio) < 10 else '10+'))
+            if n_sched is not None:
+                np_ = min(len(prio), max(0, n_sched - 2))
+                self.r.shuffle(prio)
+                start = (self.idx * n_sched) % len(fam)
+                fam = prio[:np_] + (fam + fam)[start:start + n_sched - np_]
+            else:
+                fam = prio + fam
+            self.res['dist'].append('e:snapshot-with-contested-chunk')
+            for si, (segments, ending) in enumerate(fam):
+                root, lg, status = go(segments, ending)
+                try:
+                    rp = {'kind': 'scenario', 'idx': self.idx, 'tier': self.tier, 'part': 'duel', 'segments': segments, 'ending': ending}
+                    if status is None or status == 9:
+                        self.viol('crash:duel:command-hangs', f'snapshot, two workers uploading one chunk ({segments}, {ending}): the process did not finish', rp)
+                        continue
+                    if status not in (0, 4, 17):
+                        self.res['notes'].append((f'duel child ended with status {status} ({segments}, {ending})', rp))
+                        continue
+                    name = next((e[1].get('name') for e in lg['events'] if e[0] == 'm' and e[1].get('note') == 'duel'), None)
+                    if name is None:
+                        self.res['dist'].append('e:no-duel-arose')
+                        continue
+                    logged = [('put' if 'put' in e[1] else 'del', e[1].get('put', e[1].get('del'))) for e in lg['events'] if e[0] == 'm' and ('put' in e[1] or 'del' in e[1])]
+                    what = {'kill': 'killed', 'release': 'left to finish', 'fault': "worker 1's file-system operations failing for good"}[ending[0]]
+                    label = f'snapshot with two workers uploading {name[:18]}…: {seg_text(lg, ["w", "w"]).replace(" (w)", "")}; then {what}'
+                    self.res['dist'] += ['e:ending:' + ending[0], 'e:status:%s' % status]
+                    if ending[0] == 'release' and status != 0:
+                        self.viol('crash:duel:snapshot-fails', f'{label}: the snapshot failed (status {status}) although nothing was killed or failed', rp)
+                    self.examine(root, None, None, None, status, duel={'label': label, 'rp': rp, 'logged': logged, 'full': si < n_full or n_sched is None})
+                finally:
+                    shutil.rmtree(root, ignore_errors=True)
+        finally:
+            w.concurrent = keep
 
     # ------------------------------------------------------------ (c) one permanent failure per backend call
     def part_c(self, max_calls):
@@ -573,6 +716,7 @@ def _run_scenario(arg):
         try:
             s.part_a(2 if quick else 4)
             s.part_b(14 if quick else None, 3 if quick else None)
+            s.part_e(6 if quick else 24, 1 if quick else 6)
             s.part_c(10 if quick else 40)
         except C.Hang:
             pass         # recorded as a violation; the worker's state (parked threads of the real code) is not reusable for this scenario
@@ -744,6 +888,257 @@ def _run_localfs(arg):
     return out
 
 
+# ---------------------------------------------------------------------------- (f) two concurrent uploads of ONE object
+DUEL_SLICES = 4
+
+
+def duel_case(seed, idx):
+    """one 'duel' case: a small directory, ONE object name, two real uploads of it (the same payload — an unencrypted chunk that
+    repeats in the stream — or two different payloads — two ciphertexts of one chunk, two writers of `config`)"""
+    r = rng_for(seed, 'C03-duel', idx)
+    name = r.choice(['data/ab/cd/' + 'e' * 20, 'data/ab/cd/' + 'e' * 20, 'snapshots/0f/' + 'a' * 24, 'config', 'data/ab/cd/other'])
+    dirn = os.path.dirname(name)
+    before = {'data/ab/cd/keep': b'k' * 9, 'snapshots/11/zz': b'snap'}
+    if r.random() < 0.4:
+        before[name] = r.randbytes(r.choice([1, 50, 700]))
+    if r.random() < 0.4:
+        # what an earlier killed upload of THIS name may have left, under every naming scheme a temporary could follow
+        for stale in r.sample([name + '.tmp', name + '_x1.tmp', (dirn + '/' if dirn else '') + 'stale_x1.tmp'], r.choice([1, 2])):
+            before[stale] = b'left by an earlier crash'
+    regime = r.choice(['small', 'small', 'small', 'direct'])
+    if regime == 'small':
+        size, piece = r.choice([1, 2, 33, 1000, 3000]), 128_000
+    else:
+        size, piece = r.choice([24_000, 30_001]), 10_000          # every piece goes straight to the file (larger than the io buffer)
+    d0 = r.randbytes(size)
+    payloads = r.choice(['same', 'same', 'different', 'different-length'])
+    d1 = d0 if payloads == 'same' else r.randbytes(size if payloads == 'different' else max(1, size - r.choice([1, size // 2])))
+    methods = r.choice([('upload_stream', 'upload_stream'), ('upload_stream', 'upload_stream'), ('upload', 'upload'), ('upload', 'upload_stream')])
+    return {'name': name, 'dir': dirn, 'before': before, 'regime': regime, 'piece': piece, 'data': [d0, d1], 'payloads': payloads,
+            'methods': list(methods), 'one_object': r.random() < 0.7}
+
+
+def duel_schedules(n0, n1, tier, r):
+    """bounded pre-emption: worker 0 runs i operations, worker 1 runs j, worker 0 runs k more [thorough: worker 1 runs l more];
+    then the process is killed, or everybody runs to the end, or one worker's operations fail (once / for good).
+    → [(segments, ending)]"""
+    out = []
+    quick = tier == 'quick'
+    for i in range(n0 + 1):
+        for j in range(n1 + 1):
+            ks = range(n0 - i + 1) if j else [0]
+            for k in ks:
+                seg = [(0, i), (1, j), (0, k)]
+                out.append((seg, ['kill']))
+                if k == n0 - i:
+                    # worker 0 has returned (or never started: i = n0 … k = 0); worker 1, wherever it is, fails for good
+                    out.append((seg, ['fault', 1, None, False, 1]))
+                    if not quick or (i + j) % 2 == 0:
+                        out.append((seg, ['fault', 1, ['write', 'close'], False, 1]))
+                if k == 0:
+                    out.append((seg, ['finish', (i + j) % 2]))
+                    if not quick or (i + j) % 3 == 0:
+                        out.append((seg, ['fault', i % 2, None, True, (i + j) % 2]))
+                    if not quick or (i + j) % 3 == 1:
+                        out.append((seg, ['fault', 0, None, False, 0]))
+                    if not quick or (i + j) % 3 == 2:
+                        out.append((seg, ['fault', 0, ['rename'], True, 1]))
+    if tier != 'quick':
+        for i in range(n0 + 1):
+            for j in range(1, n1 + 1):
+                for k in range(1, n0 - i + 1):
+                    for l in range(1, n1 - j + 1):
+                        out.append(([(0, i), (1, j), (0, k), (1, l)], ['kill']))
+        for _ in range(150):
+            seg, left = [], [n0, n1]
+            while left[0] or left[1]:
+                w = r.choice([x for x in (0, 1) if left[x]])
+                n = r.randint(1, left[w])
+                left[w] -= n
+                seg.append((w, n))
+                if r.random() < 0.25:
+                    break
+            out.append((seg, ['kill']))
+    return out
+
+
+def seg_text(log, methods):
+    parts, cur = [], None
+    for w, pt, fail in log['grants']:
+        if cur is None or cur[0] != w:
+            cur = [w, []]
+            parts.append(cur)
+        cur[1].append(pt['k'] + ('!' if fail else ''))
+    return ' | '.join(f'worker {w} ({methods[w]}): {" ".join(ks)}' for w, ks in parts) or 'nothing done'
+
+
+def duel_model_request(case, log, files0):
+    """the abstraction: the granted file-system operations as steps of `LocalUpload.lean`; when each worker's operations are a
+    prefix of ONE attempt of the model's plan (create tmp; write…; rename tmp → name) the request is the model's two-worker machine
+    (`localduel.duel`, the function `concurrent_uploads_atomic` speaks about), otherwise the plain step semantics (`localduel.run`)"""
+    from ..impl import c03_duel as D
+    steps, exact = D.flushed_pieces(log, case['data'])
+    if not exact:
+        return None
+    failed = any(f for _w, _pt, f in log['grants'])
+    cfg, sched, ok = {}, [], not failed
+    for w in (0, 1):
+        mine = [s for ww, s in steps if ww == w and s[0] != 'mkdir']
+        norm = []
+        for s in mine:
+            if not (norm and s[0] == 'create' and norm[-1] == s):
+                norm.append(s)
+        tmp = norm[0][1] if norm else case['name'] + '_unused%d.tmp' % w
+        written = b''.join(bytes.fromhex(s[2]) for s in norm if s[0] == 'write')
+        shape = [['create', tmp]] + [s for s in norm if s[0] == 'write'] + ([['rename', tmp, case['name']]] if norm and norm[-1][0] == 'rename' else [])
+        if norm and (norm != shape or any(s[1] != tmp for s in norm) or not case['data'][w].startswith(written)):
+            ok = False
+        pieces = [s[2] for s in norm if s[0] == 'write']
+        rest = case['data'][w][len(written):]
+        if rest and not (norm and norm[-1][0] == 'rename'):
+            pieces.append(rest.hex())
+        cfg[w] = {'dir': case['dir'], 'name': case['name'], 'tmp': tmp, 'pieces': pieces}
+    if ok:
+        seen_create = set()
+        for w, s in steps:
+            if s[0] == 'mkdir':
+                continue
+            if s[0] == 'create':
+                if w in seen_create:
+                    continue
+                seen_create.add(w)
+                sched += [w, w]
+            else:
+                sched.append(w)
+        return {'op': 'localduel.duel', 'files': files0, 'c0': cfg[0], 'c1': cfg[1], 'sched': sched, 'name': case['name']}
+    return {'op': 'localduel.run', 'files': files0, 'steps': [s for _w, s in steps], 'name': case['name']}
+
+
+def run_duel(arg):
+    seed, idx, tier, sl = arg
+    from .. import common
+    from ..impl import c03_duel as D
+    common.use_rebuilt_chunker()
+    C.no_backoff_sleep()
+    out = {'idx': idx, 'model': [], 'violations': [], 'cases': [], 'dist': [], 'notes': []}
+    case = duel_case(seed, idx)
+    r = rng_for(seed, 'C03-duel-sched', idx)
+    Local = C.local_cls()
+    name, before, data, methods = case['name'], case['before'], case['data'], case['methods']
+    files0 = [[p, b.hex()] for p, b in sorted(before.items())]
+    old = before.get(name)
+    base_rp = {'kind': 'duel', 'idx': idx, 'slice': sl, 'tier': tier}
+    summary = {'part': 'duel', 'methods': '+'.join(methods), 'regime': case['regime'], 'payloads': case['payloads'], 'existing': old is not None,
+               'one_object': case['one_object'], 'name': name.split('/')[0]}
+    seen_sig = set()
+
+    def viol(sig, what, rp):
+        if sig not in seen_sig:            # one report per signature and case slice: the first (smallest) schedule
+            seen_sig.add(sig)
+            out['violations'].append((sig, what, rp))
+
+    with R.Scratch(f'c03duel_{idx}_{sl}') as sc:
+        d0 = sc.dir('D0')
+        C.materialize(before, d0)
+
+        def child(segments, ending):
+            root = sc.dir()
+            shutil.rmtree(root)
+            shutil.copytree(d0, root)
+            log = str(root) + '.log'
+            spec = dict(case, segments=segments, ending=ending)
+            status = C.run_child(lambda: D.child_two_uploads(root, log, spec), timeout=240)
+            return root, D.read_duel_log(log), status
+        root, lg, status = child([(0, 'all'), (1, 'all')], ['finish', 0])
+        shutil.rmtree(root, ignore_errors=True)
+        if status != 0:
+            out['notes'].append((f'duel probe (two uploads one after the other) ended with status {status}', base_rp))
+            return out
+        n = [len([1 for w, _pt, _f in lg['grants'] if w == x]) for x in (0, 1)]
+        scheds = duel_schedules(n[0], n[1], tier, r)
+        if sl == 0:
+            out['dist'] += ['f:case:' + summary['methods'], 'f:case:payloads:' + case['payloads'], 'f:case:' + case['regime'],
+                            'f:case:' + ('existing-destination' if old is not None else 'new-destination'),
+                            'f:case:' + ('one-backend-object' if case['one_object'] else 'two-backend-objects')]
+        for si, (segments, ending) in enumerate(scheds):
+            if si % DUEL_SLICES != sl:
+                continue
+            root, lg, status = child(segments, ending)
+            rp = dict(base_rp, schedule=si, segments=segments, ending=ending)
+            try:
+                want = 17 if ending[0] == 'kill' else 0
+                if status != want:
+                    if status is None or status == 9:
+                        viol('local:duel:hang', f'two uploads of {name} ({" + ".join(methods)}), {seg_text(lg, methods)}, then {ending}: the process did not finish', rp)
+                    else:
+                        out['notes'].append((f'duel child ended with status {status}, expected {want} ({segments}, {ending})', rp))
+                    continue
+                raw = C.raw_files(root)
+                be = Local(str(root))
+                listing = sorted(be.list_files(''))
+                ex = be.exists(name)
+                try:
+                    dl = be.download(name)
+                except FileNotFoundError:
+                    dl = None
+                how = f'two uploads of {name} ({len(data[0])} / {len(data[1])} bytes, {"one backend object" if case["one_object"] else "two backend objects"}), ' \
+                      f'{seg_text(lg, methods)}, then {"killed" if ending[0] == "kill" else ending}'
+                allowed = ([old] if old is not None else []) + data
+                if dl is not None and dl not in allowed:
+                    viol('local:duel:partial-object-visible', f'{how}: download({name}) returns {len(dl)} bytes that are neither the old object '
+                         f'({"none" if old is None else len(old)}) nor one of the uploaded ones', rp)
+                if dl is None and old is not None:
+                    viol('local:duel:object-lost', f'{how}: the existing object disappeared', rp)
+                if ex != (dl is not None) or (name in listing) != ex:
+                    viol('local:duel:observers-disagree', f'{how}: exists={ex}, listed={name in listing}, downloadable={dl is not None}', rp)
+                if any(p.endswith('.tmp') for p in listing):
+                    viol('local:duel:temporary-listed', f'{how}: a temporary is listed: {[p for p in listing if p.endswith(".tmp")][:2]}', rp)
+                changed = [p for p, b in before.items() if p != name and not p.endswith('.tmp') and raw.get(p) != b]
+                if changed:
+                    viol('local:duel:bystander-changed', f'{how}: other objects changed: {changed[:2]}', rp)
+                done = lg['done']
+                oks = [w for w in (0, 1) if done.get(w) == 'ok']
+                if oks and dl not in data:
+                    viol('local:duel:successful-upload-not-stored', f'{how}: upload(s) of worker(s) {oks} returned normally but download({name}) gives '
+                         f'{"nothing" if dl is None else "%d bytes" % len(dl)}, none of the uploaded objects', rp)
+                faulty = any(f for _w, _pt, f in lg['grants'])
+                if ending[0] == 'finish' and not faulty:
+                    if len(oks) != 2:
+                        viol('local:duel:upload-fails', f'{how}: outcome {done} although nothing failed', rp)
+                    new_temps = [p for p in raw if p.endswith('.tmp') and p not in before]
+                    if new_temps:
+                        viol('local:duel:temporary-left-behind', f'{how}: both uploads returned, temporaries remain: {new_temps[:2]}', rp)
+                # tie
+                if case['regime'] == 'small' or si % 3 == 0:
+                    req = duel_model_request(case, lg, files0)
+                    if req is not None:
+                        impl = {'files': [[p, b.hex()] for p, b in sorted(raw.items())], 'listing': listing, 'exists': ex, 'download': None if dl is None else dl.hex()}
+                        out['model'].append((req, impl, 'duel', rp))
+                # usable afterwards: the next upload of the name goes through and is what every observer sees
+                d3 = b'after' + data[0][:7]
+                try:
+                    Local(str(root)).upload(name, d3)
+                    got = Local(str(root)).download(name)
+                except Exception as e:  # noqa: BLE001
+                    got = type(e).__name__
+                if got != d3:
+                    viol('local:duel:unusable-afterwards', f'{how}: a later upload of {name} does not take effect ({got if isinstance(got, str) else "%d bytes" % len(got)})', rp)
+                both_inside = all(0 < len([1 for w, _pt, _f in lg['grants'] if w == x]) for x in (0, 1)) and len(done) < 2
+                out['cases'].append((dict(summary, ops=[len([1 for w, _pt, _f in lg['grants'] if w == x]) for x in (0, 1)], ending=str(ending)), both_inside or faulty))
+                tmps = {pt['p'] for _w, pt, _f in lg['grants'] if pt['k'] in ('create', 'open-w')}
+                out['dist'] += ['f:ending:' + ending[0] + (':once' if ending[0] == 'fault' and ending[3] else ''),
+                                'f:overlap:' + ('both-uploads-in-flight' if both_inside else 'one-in-flight' if len(done) < 2 else 'none-in-flight')]
+                if len(tmps) == 1 and all(len([1 for w, pt, _f in lg['grants'] if w == x and pt['k'] in ('create', 'open-w')]) for x in (0, 1)):
+                    out['dist'].append('f:temporaries-shared-by-two-uploads')
+            finally:
+                shutil.rmtree(root, ignore_errors=True)
+                try:
+                    os.unlink(str(root) + '.log')
+                except OSError:
+                    pass
+    return out
+
+
 def localfs_model(drv, req):
     """run the chain of attempts through `localfs.upload` (each attempt starts from the files the previous one left)"""
     files = req['files']
@@ -765,6 +1160,15 @@ def compare_model(kind, req, impl, m):
         for k in ('files', 'listing', 'exists', 'download'):
             if m.get(k, '<absent>') != impl[k]:
                 bad.append(f'localfs {k}: model {str(m.get(k, "<absent>"))[:120]} implementation {str(impl[k])[:120]}')
+        return bad
+    if kind == 'duel':
+        if m is None or 'files' not in m:
+            return ['driver error: %r' % (m,)]
+        for k in ('files', 'listing', 'exists', 'download'):
+            if m[k] != impl[k]:
+                bad.append(f'{req["op"]} {k}: model {str(m[k])[:120]} implementation {str(impl[k])[:120]}')
+        if req['op'] == 'localduel.duel' and req['c0']['tmp'] == req['c1']['tmp'] and m.get('private'):
+            bad.append(f'the model takes the temporaries of two uploads in flight to be different paths (Gen.localTempPrivate); both uploads wrote through {req["c0"]["tmp"]}')
         return bad
     if isinstance(m.get('error'), str) and not any(k in m for k in ('store', 'rows', 'files', 'accepts')) and m['error'] not in (
             'corrupted', 'not_available', 'different_key', 'missing'):
@@ -806,21 +1210,35 @@ def compare_model(kind, req, impl, m):
 def run(out, drv, info):
     quick = out.tier == 'quick'
     n_scen, n_fs = (40, 200) if quick else (320, 3000)
+    n_duel = 4 if quick else 16
+    scale = float(os.environ.get('VERIF_C03_SCALE', '1'))          # < 1: a smaller sample of the same stream (smoke runs of the thorough tier on a busy machine)
+    n_scen, n_fs, n_duel = max(1, int(n_scen * scale)), max(1, int(n_fs * scale)), max(1, int(n_duel * scale))
     out.rule = ('case = one crash state / fault run / completion order / local-upload phase.  Scenario = real repository (encrypted with owner + clone/shared/independent keys, or '
                 'unencrypted; 3 chunkings; concurrency 1/2/4) with 2–3 overlapping snapshots, then snapshot | delete | clean (with orphans).  (b) child on the real Local backend '
                 'killed before mutation k (all k in thorough; first 14 + spread in quick) and inside an upload (first / middle / last put) at temp-created, half-written, fully-written, '
                 'renamed; (c) a permanent failure at each backend call index (exists/put/get/del); (a) randomised completion orders, concurrency 5; (d) Local.upload / upload_stream killed '
-                'at each phase or failing once / for good, with an existing destination and stale temporaries.  non-trivial = strictly inside the command (not before its first / after its '
-                'last mutation), a failed mutating call, ≥ 2 mutations reordered, or an upload phase with ≥ 2 bytes; distinct = hash of the case summary')
+                'at each phase or failing once / for good, with an existing destination and stale temporaries; (e) snapshots of data with a repeating NEW chunk (half of the snapshot '
+                'scenarios get zero-filled regions / twin files / block runs), ≥ 2 workers, uploads not serialised: the two worker threads uploading the same object moved one '
+                'file-system operation at a time (i, j, k ∈ {0, all}; conflict-directed schedules first; 6 per scenario in quick, 24 in thorough), then killed / worker 1 failing '
+                'for good / released; (f) two real uploads of one name under every schedule (i, j, k) + kill, + finish / one failing operation / a worker failing for good '
+                '(thorough: also 4-segment and random schedules).  non-trivial = strictly inside the command (not before its first / after its '
+                'last mutation), a failed mutating call, ≥ 2 mutations reordered, an upload phase with ≥ 2 bytes, or (e, f) both uploads in flight / an injected failure; '
+                'distinct = hash of the case summary')
     out.assumptions = ['PARTIAL: power loss below rename / missing fsync (torn or lost directory entries, data not yet durable) and server-side atomicity of S3/B2 PUT are not modelled',
                        'process death is modelled at backend-call granularity and, for the local backend, at the file-system steps mkdir -p / mktemp / write / rename',
                        'POSIX rename atomicity; ideal cryptography (payload validity is decided by the real verification code)',
-                       'mutating backend calls of the killed child are serialised by the instrumentation, so that "the first k mutations completed" is well defined']
+                       'mutating backend calls of the killed child are serialised by the instrumentation, so that "the first k mutations completed" is well defined '
+                       '(parts a–d; parts e and f do NOT serialise them: two uploads of one object overlap operation by operation)',
+                       'two uploads in flight: pre-emption at file-system operations (open / write / close / rename / remove / mkdir as CPython issues them; data smaller than the '
+                       'io buffer reaches the file at close); a unique-name generator (NamedTemporaryFile / mkstemp) never returns the path of a temporary that still exists',
+                       'the model of two uploads is path based: it does not follow an open descriptor through a rename by the OTHER upload — with private temporaries (what the '
+                       'theorem assumes and the extractor checks) no such rename exists']
     isolate_tqdm_lock()
     with mp.get_context('fork').Pool(min(16, os.cpu_count() or 4)) as pool:
         r1 = pool.map_async(run_scenario, [(out.seed, i, out.tier) for i in range(n_scen)], chunksize=1)
+        r3 = pool.map_async(run_duel, [(out.seed, i, out.tier, sl) for i in range(n_duel) for sl in range(DUEL_SLICES)], chunksize=1)
         r2 = pool.map_async(run_localfs, [(out.seed, i, out.tier) for i in range(n_fs)], chunksize=4)
-        results = r1.get() + r2.get()
+        results = r1.get() + r2.get() + r3.get()
     todo = []
     for res in results:
         for summary, nt in res['cases']:
@@ -857,12 +1275,13 @@ def run(out, drv, info):
 def replay(path, drv):
     d = json.load(open(path))
     rp = d.get('replay', d)
-    fn = {'scenario': run_scenario, 'localfs': run_localfs}.get(rp.get('kind'))
+    fn = {'scenario': run_scenario, 'localfs': run_localfs, 'duel': run_duel}.get(rp.get('kind'))
     if fn is None:
         print('replay kind not supported (proof/tie failure without a concrete input: rebuild and re-run the check)')
         return 2
+    args = (rp.get('seed', 0), rp['idx'], rp.get('tier', 'quick')) + ((rp.get('slice', 0),) if rp.get('kind') == 'duel' else ())
     with mp.get_context('fork').Pool(1) as pool:
-        res = pool.apply(fn, ((rp.get('seed', 0), rp['idx'], rp.get('tier', 'quick')),))
+        res = pool.apply(fn, (args,))
     for v in res['violations']:
         print('violation', v[0], v[1])
     bad = 0
